@@ -26,10 +26,13 @@ Qed.
 
 (* bad_pattern_total / compile_shape: a malformed and a well-formed pattern *)
 Example parse_ex : goParse [40;97] = ParseErr /\
-  exists p, goParse [94;40;97;42;41;37;49;36] = ParseOk p /\ len (goCompile p) = 11.
-Proof. split; [reflexivity|]. eexists. split; reflexivity. Qed.
+  match goParse [94;40;97;42;41;37;49;36] with
+  | ParseOk p => len (goCompile p) = 11 /\ must_head p = true /\ must_tail p = true
+  | _ => False
+  end.
+Proof. vm_compute. repeat split. Qed.
 
-(* vm_refines_flat: "(a*)b%1" on "xaabaa" from position 1: the hypotheses hold and the
+(* vm_refines_flat: a capture of a starred a, then b, then a back-reference, on xaabaa from position 1: the hypotheses hold and the
    semantics is a genuine match with one closed capture *)
 Example vm_refines_flat_ex :
   let p := mkSeq false false [PCap [PRepeat 42 (CChar 97)]; PSingle (CChar 98); PNumber 1] in
